@@ -62,6 +62,16 @@ class CaseSpec:
                     'coverage': {'evaluations': 0, 'distinct_nontrivial': 0, 'rule': self.rule, 'samples': []}}
         names = harness_names()
         cs = casegen.gen_cases(prop, u, seed, tier, probe=run_harness)
+        # witness types of recorded findings are exercised only by the checks of the properties they violate
+        def hidden(m):
+            if m.get('kind') in ('type', 'stype'): return False
+            for key in ('ti', 'tj'):
+                k = m.get(key)
+                if k is not None and k < len(u.types):
+                    if any(x.known and prop not in x.known for x in u.types[k].walk()): return True
+            return False
+        keep = [k for k, m in enumerate(cs.meta) if not hidden(m)]
+        cs.lines = [cs.lines[k] for k in keep]; cs.meta = [cs.meta[k] for k in keep]
         if replay:
             rp = json.load(open(replay))
             lines = rp.get('detail', {}).get('lines')
